@@ -68,6 +68,7 @@ func genC11(r *prng) *plan {
 	p.Cfg["fill"] = int64([]int{0, 5, 20, 48}[r.intn(4)])
 	p.Cfg["maxenr"] = int64(r.intn(2))
 	p.Cfg["nunverified"] = int64(r.intn(4))
+	p.Cfg["enrlie"] = int64(r.intn(3) / 2)
 	n := 3 + r.intn(8)
 	for i := 0; i < n; i++ {
 		if r.chance(15) {
@@ -181,7 +182,13 @@ func runC11(seed uint64) {
 	// askers: one puppet per address class
 	askers := map[ipClass]*puppet{}
 	for c := ipLoop; c <= ipPub; c++ {
-		askers[c] = w.newPuppet(nodeCfg{name: fmt.Sprintf("A%d", c), ip: c11Addr(c, 150+int(c)).String(), port: 9100 + int(c), key: detKey(seed, 10+int(c)), versions: []uint8{0, 1}, maxUtp: 10})
+		acfg := nodeCfg{name: fmt.Sprintf("A%d", c), ip: c11Addr(c, 150+int(c)).String(), port: 9100 + int(c), key: detKey(seed, 10+int(c)), versions: []uint8{0, 1}, maxUtp: 10}
+		if p.cfg("enrlie") == 1 {
+			// the asker's record names an address of another class than the one its packets come from: what may be
+			// relayed to it is decided by where it really is
+			acfg.enrIP = c11Addr(ipClass((int(c)+1+int(seed%2))%3), 160+int(c)).String()
+		}
+		askers[c] = w.newPuppet(acfg)
 	}
 	// unverified entries: puppets that contacted V once and never answer its pings
 	for i := 0; i < int(p.cfg("nunverified")); i++ {
